@@ -290,7 +290,7 @@ func vpRun(t *vlib.T, stock bool, pts [][]float64, effort int, src rand.Source, 
 	st.sw.relaxIdentity = st.identBroken
 	st.sw.roundingClass = true
 	ix := &vpIx{tree: tree, be: be}
-	c0, s0 := be.ctr, st.sw.searches
+	c0, s0, q0 := be.ctr, st.sw.searches, st.sw.queries
 	radii := vpRadii
 	if src == nil {
 		// The global source makes the tree shape random. The known rounding
@@ -299,7 +299,10 @@ func vpRun(t *vlib.T, stock bool, pts [][]float64, effort int, src rand.Source, 
 		radii = vpExactRadii
 	}
 	sweep(t, ix, be.pts, queries, ks, radii, &st.sw, ctx)
-	if !stock && len(pts) > 0 && be.ctr-c0 < (st.sw.searches-s0)*int64(len(pts)) {
+	// Nearest evaluates the query's distance once per visited node, searchSet twice.
+	nearest := st.sw.queries - q0
+	sets := st.sw.searches - s0 - nearest
+	if !stock && len(pts) > 0 && be.ctr-c0 < (nearest+2*sets)*int64(len(pts)) {
 		st.pruned++
 	}
 }
